@@ -264,7 +264,10 @@ mod verif_search {
         // every input of at most two bytes; every three-byte input behind the block headers that reach the decoders
         for a in 0..=255u32 { let d = [a as u8]; n += 1; if let Some(m) = check_c05(&d) { fail(&d, m); } }
         for a in 0..=255u32 { for b in 0..=255u32 { let d = [a as u8, b as u8]; n += 1; if let Some(m) = check_c05(&d) { fail(&d, m); } } }
-        for a in [0x4bu32, 0x4a, 0x03, 0x02, 0x05, 0x04, 0x01, 0x00, 0xed, 0xec] { for b in 0..=255u32 { for c in 0..=255u32 {
+        // (thorough tier: every three-byte input)
+        let thorough = std::env::var("VERIF_TIER").map(|v| v == "thorough").unwrap_or(false);
+        let firsts: Vec<u32> = if thorough { (0..=255u32).collect() } else { vec![0x4bu32, 0x4a, 0x03, 0x02, 0x05, 0x04, 0x01, 0x00, 0xed, 0xec] };
+        for a in firsts { for b in 0..=255u32 { for c in 0..=255u32 {
             let d = [a as u8, b as u8, c as u8]; n += 1; if let Some(m) = check_c05(&d) { fail(&d, m); } } } }
         if let Some(m) = check_c05(&[]) { fail(&[], m); }
         // well-formed streams: every truncation, single-byte corruptions, noise tails
